@@ -515,6 +515,31 @@ Example c18_nonvacuous_read :
   rd 32772 8192 (fun _ => 524288) = RUnknownCpu /\ rd 77 8192 (fun _ => 65536) = RUnknownCpu.
 Proof. cbv zeta. repeat split; vm_compute; reflexivity. Qed.
 
+(* ... and WHAT the context read holds (scroll's derive(Pread): declared order, packed; byte offsets regenerated from
+   format.rs): for every accepted name n, ALL byte strings and both byte orders, get_register_always(n) on the deserialised
+   context is the little- / big-endian number in the size_of::<Register>() bytes at the offset of n's location; it fits the
+   Register type (so the model's unbounded values never leave u32 / u64 on contexts that were read); and names with different
+   canonical names read disjoint byte ranges *)
+Theorem c18_read_registers : forall c, In c all_contexts -> forall n, In n (accepted c) -> forall big bytes,
+  exists off, loc_offset c (loc_of c n) = Some off /\ 0 <= off /\
+    get_always c (decode_base c big bytes) n = Ret (decode big bytes off (Z.to_nat (ct_width c / 8))) /\
+    ((forall k, 0 <= bytes k < 256) -> 0 <= decode big bytes off (Z.to_nat (ct_width c / 8)) < 2 ^ ct_width c) /\
+    (forall m, In m (accepted c) -> memoize c m <> memoize c n ->
+       exists off', loc_offset c (loc_of c m) = Some off' /\ (off + ct_width c / 8 <= off' \/ off' + ct_width c / 8 <= off)).
+Proof. intros c Hc. exact (read_registers c (all_facts c Hc)). Qed.
+Print Assumptions c18_read_registers.
+(* X86: eip is the u32 at byte 184, esp at 196; bytes 1,2,3,4 at 184.. read as 0x04030201 little-endian, 0x01020304 big-endian;
+   the correspondence driver's pattern base is this decoding of the harness's byte pattern, on every accepted name of every table *)
+Example c18_nonvacuous_read_registers :
+  let bytes : Z -> Z := fun k => if (184 <=? k) && (k <? 188) then k - 183 else 0 in
+  loc_offset ctx_x86 (loc_of ctx_x86 n_eip) = Some 184 /\ loc_offset ctx_x86 (loc_of ctx_x86 n_esp) = Some 196 /\
+  get_always ctx_x86 (decode_base ctx_x86 false bytes) n_eip = Ret 67305985 /\
+  get_always ctx_x86 (decode_base ctx_x86 true bytes) n_eip = Ret 16909060 /\
+  forallb (fun c => forallb (fun n => let l := loc_of c n in
+                       RM.C18.Driver.pattern_base c (l_field l) (l_idx l) =?
+                       decode_base c false RM.C18.Driver.pattern_byte (l_field l) (l_idx l)) (accepted c)) all_contexts = true.
+Proof. cbv zeta. repeat split; vm_compute; reflexivity. Qed.
+
 (* F-C18a: the SPARC table as it was before the fix (same get/set arms, no memoize_register
    and no register_is_valid arms): "o6" is accepted by set_register and read back by
    get_register_always, but the checked accessor reports it absent, and validity of g_r14
